@@ -203,8 +203,11 @@ def gen_file(rng, tier):
         bids = [f"Köln-{i}" if i % 3 else f"b{i}é" for i in range(1, nb + 1)]
     unlisted = rng.chance(0.15)
     dup = rng.chance(0.06)
+    numeric_ids = rng.chance(0.4)
     for ci in range(ncon):
         cid = f"c{ci + 1}" if not (NONASCII_OK and rng.chance(0.08)) else f"Bezirk-ä{ci + 1}"
+        if numeric_ids:
+            cid = str(330 + ci)          # as in the shipped .raire files (contest 339, 334, ...)
         nc = rng.choice([2, 3, 3, 4, 4, 4, 5] if tier == "thorough" else [2, 3, 3, 4, 4, 4, 4, 5])
         pool = rng.choice(POOLS)
         cands = pool[:nc]
@@ -557,6 +560,30 @@ def impl_raire(case):
                         "rL": int(sum(a.is_vote_for_loser(r) for r in gcvrs.values()))})
         returned.append([con.name, lst])
     res["returned"] = returned
+    # the same contests with their identifiers as Python ints (a caller who numbers contests in code; the library's own
+    # load_contests_from_txt names its contest 1): the generator's result must not depend on the identifier's type
+    res["returned_int"] = None
+    if gcontests and all(str(c.name).isdecimal() and str(int(c.name)) == c.name for c in gcontests):
+        try:
+            g2 = {bid: {(int(k) if str(k).isdecimal() and str(int(k)) == k else k): dict(b) for k, b in r.items()}
+                  for bid, r in gcvrs.items()}
+            alt = []
+            for con in gcontests:
+                c2 = ru.Contest(int(con.name), list(con.candidates), con.winner, con.tot_ballots, order=list(con.outcome))
+                try:
+                    out = compute_raire_assertions(c2, g2, c2.winner, cp_estimate, False)
+                except Exception as e:  # noqa
+                    alt.append([con.name, [{"raised": err_kind(e)}]])
+                    continue
+                alt.append([con.name, [None if a is None else
+                                       {"t": "NEB" if isinstance(a, ru.NEBAssertion) else "NEN", "w": a.winner, "l": a.loser,
+                                        "E": list(getattr(a, "eliminated", [])),
+                                        "vW": int(a.votes_for_winner), "vL": int(a.votes_for_loser),
+                                        "rW": int(sum(a.is_vote_for_winner(r) for r in g2.values())),
+                                        "rL": int(sum(a.is_vote_for_loser(r) for r in g2.values()))} for a in out]])
+            res["returned_int"] = alt
+        except Exception as e:  # noqa
+            res["returned_int"] = [["*", [{"raised": err_kind(e)}]]]
     return res
 
 
@@ -691,6 +718,14 @@ def oracle_c14(case, ir):
             if x["vW"] != x["rW"] or x["vL"] != x["rL"]:
                 return {"what": f"contest {cid}: returned {x['t']} assertion winner={x['w']} loser={x['l']} eliminated={x['E']} "
                                 f"reports tallies {x['vW']}/{x['vL']} but re-applied to the cvrs gives {x['rW']}/{x['rL']}"}
+    if ir.get("returned_int") is not None and ir["returned_int"] != ir["returned"]:
+        for (cid, a), (_, b) in zip(ir["returned"], ir["returned_int"]):
+            if a != b:
+                bad = next((y for y in b if y and "raised" not in y and (y["vW"] != y["rW"] or y["vL"] != y["rL"])), None)
+                return {"what": f"contest {cid}: with the contest identifier handed over as the int {int(cid)} instead of the "
+                                f"str {cid!r} the generator returns {b} instead of {a}"
+                                + (f"; {bad['t']} {bad['w']} v {bad['l']} reports {bad['vW']}/{bad['vL']} but re-applies as "
+                                   f"{bad['rW']}/{bad['rL']}" if bad else "")}
     # same preference order from both readers, per (ballot, contest).  A line may also rank identifiers that the
     # contest line does not declare (write-ins): CVR.from_raire_file keeps them, load_contests_from_raire drops them
     # (keeping the declared candidates at their positions on the line), so the orders are compared on the declared
